@@ -409,15 +409,17 @@ def repo_test_traces():
     log("[repo tests] traced run in %.1fs" % (time.time() - t0))
     cal = raw + ".cal"
     fx = raw + ".fx"
+    curve = raw + ".curve"
+    spline = raw + ".spline"
     n = 0
-    with open(cal, "w") as fc, open(fx, "w") as ff:
+    with open(cal, "w") as fc, open(fx, "w") as ff, open(curve, "w") as fcu, open(spline, "w") as fsp:
         if os.path.exists(raw):
             for ln in open(raw):
                 if not ln.strip():
                     continue
                 n += 1
-                (fc if '"op":"cal"' in ln else ff).write(ln)
-    return {"cal": cal, "fx": fx, "events": n}
+                (fc if '"op":"cal"' in ln else fcu if '"op":"curve"' in ln else fsp if '"op":"basis1"' in ln else ff).write(ln)
+    return {"cal": cal, "fx": fx, "curve": curve, "spline": spline, "events": n}
 
 
 def write_evidence(pid, tier, level, coverage, assumptions, wall, violations):
